@@ -236,8 +236,8 @@ static void run_group(const Grp &G, unsigned k, unsigned n) {
 static int vtmf_main(Args &A) {
 	const bool T = A.thorough();
 	std::vector<std::pair<unsigned, unsigned> > sizes = { {16, 8}, {24, 12}, {40, 17}, {64, 32} };
-	if (T) { sizes.push_back({96, 48}); sizes.push_back({128, 64}); sizes.push_back({33, 32}); }
-	unsigned rounds = T ? 6 : 2, n = T ? 4 : 3;
+	if (T) { sizes.push_back({96, 48}); sizes.push_back({128, 64}); sizes.push_back({36, 32}); }
+	unsigned rounds = T ? 4 : 2, n = T ? 4 : 3;
 	for (unsigned rd = 0; rd < rounds; rd++) {
 		for (auto &sz : sizes) { Grp G = gen_group(sz.first, sz.second); run_group(G, 2 + gen().below(2), n); }
 		Grp Q = gen_group_qr(rd % 2 ? 32 : 16, rd % 2 ? 16 : 8); run_group(Q, 2, n);
